@@ -334,4 +334,30 @@ theorem C06_renderLog_meaning (T : Nat) (st : RState) (i : In) (rest : List In) 
   refine ⟨?_, latest_snoc_self _ _ _, fun h => latest_snoc_ne h _ _⟩
   by_cases ha : i.assemble = true <;> simp [renderLog, rendered, ha]
 
+-- lifetime of the state -----------------------------------------------------------------------------
+
+/-- **C06 (TimeoutDict lifetime).** For every timeout `T > 0` and every time-ordered sequence of
+operations (get / set / del / in-place mutation, on any keys) on an initially empty `TimeoutDict`:
+an entry accessed at time `t` (set, or successfully read) and not accessed or deleted afterwards
+is present at every `t' < t + T` and absent at every `t' ≥ t + 2T`, whatever happens to other
+keys before, in between and at which phases the timer fires. -/
+theorem C06_lifetime {κ ν : Type} [DecidableEq κ] (T : Nat) (hT : 0 < T)
+    (pre : List (Nat × TD.Op κ ν)) (t : Nat) (k : κ) (op : TD.Op κ ν)
+    (hpre : TD.Chain 0 pre) (hpt : ∀ p ∈ pre, p.1 ≤ t)
+    (hop : (∃ v, op = .set k v) ∨
+           (op = .get k ∧ ((TD.runOps T TD.empty pre).advance T t).present k = true))
+    (rest : List (Nat × TD.Op κ ν)) (hc : TD.Chain t rest) (hne : ∀ p ∈ rest, p.2.key ≠ k)
+    (t' : Nat) (hle : ∀ p ∈ rest, p.1 ≤ t') (ht' : t ≤ t') :
+    (t' < t + T →
+      ((TD.runOps T TD.empty (pre ++ (t, op) :: rest)).advance T t').present k = true) ∧
+    (t + 2 * T ≤ t' →
+      ((TD.runOps T TD.empty (pre ++ (t, op) :: rest)).advance T t').present k = false) := by
+  obtain ⟨hwf, hb⟩ := TD.runOps_wf_bounded (T := T) pre TD.empty_wf (TD.empty_bounded T 0) hpre t hpt
+    (Nat.zero_le t)
+  obtain ⟨D, h1, h2, hinv⟩ := TD.linv_of_access hT hwf hb op hop
+  rw [TD.runOps_append]
+  simp only [TD.runOps]
+  obtain ⟨ha, hd⟩ := TD.lifetime_aux rest hinv hc hne t' hle ht'
+  exact ⟨fun h => ha (by omega), fun h => hd (by omega)⟩
+
 end Aiocoap.BwServer
